@@ -67,6 +67,52 @@ def check(run, prog, tier):
                       "view accumulators, rule of C19-F)", minimum=8)
     from ..report import RuleProxy
     c19.rule_F(RuleProxy(run, "C12-H"), prog, m)
+    run.rule("C12-I", "exciton line widths weight the site widths with the coefficients of the sites in that exciton: the "
+                      "eigenvector matrix is indexed [site, exciton]", minimum=2)
+    rule_I(run, prog, "C12-I", "for uncoupled molecules the widths are then permuted among the molecules and the response is no "
+                               "longer the sum of the molecules' responses")
+
+
+def rule_I(run, prog, rid, what):
+    """In Aggregate.diagonalize SS comes from numpy.linalg.eigh(self.HH): SS[n, a] is the coefficient of site-basis state n
+    in eigenstate a.  A statement that accumulates into R[a] a site quantity self.Wd[n, n] / self.Dr[n, n] weighted with
+    a power of SS[i, j], where n is one of i, j, sums over the sites n for the exciton a: the site index is the first
+    index of SS and the index of the result the second.  (|SS|^4 is symmetric for dimers and for transpositions, so the
+    exchange shows only for three or more molecules with a cyclic order of the energies.)"""
+    f = prog.func("quantarhei.builders.aggregate_base.AggregateBase.diagonalize")
+    prog.consulted.add(f.relpath)
+    src = [n for n in walk_no_nested(f.node) if isinstance(n, ast.Assign) and isinstance(n.value, ast.Call)
+           and norm(n.value.func).endswith("linalg.eigh") and isinstance(n.targets[0], ast.Tuple)
+           and [norm(e) for e in n.targets[0].elts][1:] == ["SS"]]
+    if len(src) != 1 or norm(src[0].value.args[0]) != "self.HH":
+        raise AnalysisError("diagonalize: SS is no longer the eigenvector matrix of eigh(self.HH)")
+    n_st = 0
+    for st in walk_no_nested(f.node):
+        if not (isinstance(st, ast.AugAssign) and isinstance(st.target, ast.Subscript) and isinstance(st.target.slice, ast.Name)):
+            continue
+        res = st.target.slice.id
+        site = None
+        for x in ast.walk(st.value):
+            if isinstance(x, ast.Subscript) and norm(x.value) in ("self.Wd", "self.Dr") and isinstance(x.slice, ast.Tuple) \
+                    and len(x.slice.elts) == 2 and all(isinstance(e, ast.Name) for e in x.slice.elts) \
+                    and x.slice.elts[0].id == x.slice.elts[1].id:
+                site = x.slice.elts[0].id
+        if site is None:
+            continue
+        for x in ast.walk(st.value):
+            if isinstance(x, ast.Subscript) and norm(x.value) == "SS" and isinstance(x.slice, ast.Tuple) and len(x.slice.elts) == 2 \
+                    and all(isinstance(e, ast.Name) for e in x.slice.elts):
+                i, j = [e.id for e in x.slice.elts]
+                if site not in (i, j):
+                    continue
+                n_st += 1
+                run.obligation(rid, "AggregateBase.diagonalize", (i, j) == (site, res), key="site-first:" + norm(st)[:50],
+                               message="diagonalize accumulates the site quantity indexed by %s into %s[%s] with the weight %s: "
+                                       "SS = eigh(HH)[1] is indexed [site, exciton], here the two are exchanged - %s"
+                                       % (site, norm(st.target.value), res, norm(x), what), loc=f.loc(st),
+                               sample={"statement": norm(st)[:80]})
+    if n_st < 2:
+        raise AnalysisError("diagonalize: only %d width accumulations over sites recognised (2 confirmed)" % n_st)
 
 
 def rule_G(run, prog):
